@@ -97,6 +97,16 @@ def generate(rng, tier, seed):
                                 c = Case(f"{ver}:deletion", {"fix": fix})
                                 check_verdict(c, unwrap_case(c, kbpk, s), s, G, hl, key)
                                 yield c
+                # one character in front of or behind the genuine block, every letter, digit and a few others, with and without fix-up
+                # (transport prefixes / suffixes an implementation might be tempted to tolerate)
+                if gi == 0:
+                    for ch in "ABCDEFGHIJKLMNOPQRSTUVWXYZabcdefghijklmnopqrstuvwxyz0123456789 #:=\n\t\x00":
+                        for s in (ch + G, G + ch, fixlen(ch + G), ch + G[1:]):
+                            if s == G:
+                                continue
+                            c = Case(f"{ver}:prefix-or-suffix-character", {"ch": ch})
+                            check_verdict(c, unwrap_case(c, kbpk, s), s, G, hl, key)
+                            yield c
                 # whole-block deletions / duplications of ciphertext blocks and truncation / extension with fix-up
                 X = G[hl:n - 2 * ml]
                 blocks = [X[i:i + 2 * bs] for i in range(0, len(X), 2 * bs)]
